@@ -172,6 +172,19 @@ def gen_case(st, i, tier="quick", op=None, max_dim=None):
     return case
 
 
+def valid(case):
+    """Stated domain: a kernel's half-size must not exceed the raster (a Dask limitation the
+    property excludes); used by the minimiser so that a shrunk case stays inside it."""
+    H, W = case["rasters"][0]["data"].shape[-2:]
+    for p in (case["params"], (case.get("pair") or {}).get("params") or {}):
+        k = p.get("kernel")
+        if k is not None:
+            k = np.asarray(k)
+            if k.shape[0] // 2 > H or k.shape[1] // 2 > W:
+                return False
+    return H >= 1 and W >= 1
+
+
 def reach(case):
     """Reach counters for one case (DESIGN 2.6)."""
     r = {}
